@@ -22,6 +22,7 @@ LEVEL_TEXT = ('Coq theorems over an executable Gallina model of schedule.Schedul
               'for all histories, all event bodies of the action language, all clocks and all heap tie-breaks: every scheduling is at any time in exactly one '
               'of pending/executed/removed (exactly once, removed never run), executed only when due and minimal among pending, a completed run() leaves nothing due '
               'whatever the events raise, events/heap stay consistent under re-entrant mutation, the periodic wrapper re-adds itself even when f raises; '
+              'every history (periodic events, re-entrant / raising / clock-ticking callbacks) refines an abstract bag semantics with a small-step run() (C18_bag_refines), a periodic event with count n fires at most max(n,1) times (C18_periodic_count); '
               'every executed or pending entry carries the arguments it was registered with, also across rescheduleEvent (full statement since the fix of C18.F17). '
               'The model is tied to the source by a fail-closed AST table and a differential run against the real Schedule on every check.')
 LEVEL_NOTE = ('Trusted: Coq kernel, gen_tables.py, extraction + OCaml driver, the Python harness; heapq enters as an oracle whose contract '
@@ -438,6 +439,13 @@ CORPUS = [
     # witnesses of C18.F17 (fixed): reschedule must keep args/kwargs (fixed arity: TypeError swallowed; variadic: called with nothing)
     [['act', ['add', 1, 1, ['nop'], 1, ['n', 0], [7], []]], ['act', ['rs', ['n', 0], 2]], ['adv', 5], ['run']],
     [['act', ['add', 1, None, ['nop'], 1, ['n', 0], [7], [[1, 4]]]], ['act', ['rs', ['n', 0], 2]], ['adv', 5], ['run']],
+    # Bag.v Examples ex_pull / ex_mixed, replayed on the real Schedule: a callback reschedules a later event (and another
+    # adds one) to before the current time -> both fire in the same run(); a periodic event with count 3 among one-shots
+    [['act', ['add', 1, None, ['rs', ['n', 1], -5], 1, ['n', 0], [], []]],
+     ['act', ['add', 2, None, ['add', 3, None, ['nop'], -1, ['n', 2], [8], []], 50, ['n', 1], [9], []]], ['adv', 2], ['run']],
+    [['act', ['add', 1, None, ['nop'], 4, ['n', 1], [1], []]], ['act', ['per', 2, 1, ['raise'], 2, ['n', 0], False, [5], [], 3]],
+     ['act', ['add', 3, None, ['nop'], 5, ['n', 2], [], []]], ['act', ['rm', ['n', 2]]],
+     ['adv', 3], ['run'], ['adv', 3], ['run'], ['adv', 3], ['run'], ['adv', 3], ['run']],
     # ties, past times, raising event between two others
     [['act', ['add', 1, 0, ['nop'], 2, None, [], []]], ['act', ['add', 2, 0, ['raise'], 2, None, [], []]],
      ['act', ['add', 3, 0, ['nop'], 2, None, [], []]], ['act', ['add', 4, 0, ['nop'], -3, ['n', 1], [], []]], ['adv', 3], ['run']],
